@@ -86,6 +86,17 @@ CHECKS["C01"] = dict(
     technique="Coq proof (composition of the C05 codec theorems with a leftmost-separator lemma) + end-to-end differential runs over 7 transport configurations",
     design="7/C01")
 
+CHECKS["C02"] = dict(
+    text="Machine-checked proof (Coq), for all extents, strides and bounds: per axis the request the client builds (normalise, "
+         "compose with the stored URL hyperslab, print) addresses exactly the source elements numpy selects from the pre-sliced "
+         "axis and parses back on the server to the same slice when non-empty (composition of the C03 laws). The plumbing is run on "
+         "the real code: arrays and grids (output_grid on/off) of rank 1-3 served over DAP2 and by an independent reference DAP4 "
+         "server, with and without a strided hyperslab in the URL, indexed with every per-axis form, compared with numpy; the "
+         "QUERY_STRING seen by the server is compared with the model's query text.",
+    note=TB + "Server-side application of the parsed hyperslab is numpy indexing (exercised, not modelled); slice kernels as in C03.",
+    technique="Coq proof (composition of the slice-algebra theorems) + differential runs of the real client against numpy over DAP2 and a reference DAP4 server",
+    design="7/C02")
+
 NOT_YET = {
 }
 
